@@ -219,7 +219,11 @@ def check(case, stats):
     n = len(nodes)
     text = call("write", graph_to_molfile, g)
     stats.evaluated()
-    atoms, bonds, wraps = own_read(text)
+    try:
+        atoms, bonds, wraps = own_read(text)
+    except IndexError:
+        # the block structure is so damaged that the own line grammar runs off the end
+        raise Violation("skeleton", "written file does not have the V3000 block structure (counts / BEGIN-END lines do not match the number of lines)") from None
     if len(atoms) != n or len(bonds) != g.number_of_edges():
         raise Violation("counts", f"file has {len(atoms)} atoms / {len(bonds)} bonds, graph {n} / {g.number_of_edges()}")
     if len({a["idx"] for a in atoms}) != n:
